@@ -81,6 +81,13 @@ MODELS = [
         Q(S('red'), B('true'), I(3))]),
     ('top_opt_date', Optional[datetime.date], [], [TS('2001-12-14')]),
     # Any as a member of a Union (D24)
+    ('copying', Z.Copying, [Z.Copying, Z.Sub], [
+        M(items=Q(I(1), I(2)), sub=M(x=I(3)), d=M(k=M(x=I(4)))),
+    ]),
+    ('versioned', Union[Z.V1, Z.V2], [Z.V1, Z.V2], [
+        M(version=I(1), name=S('a')),
+        M(version=I(2), title=S('t'), factor=F(2.5)),
+    ]),
     ('top_opt_any', Optional[Any], [], [M(k=Q(I(1)))]),
     ('any_union', Z.AnyU, [Z.AnyU, Z.Sub], [M(a=M(k=I(1)), b=S('x'))]),
     ('typed', Z.Typed, [Z.Typed, Z.Ident], [
@@ -130,7 +137,9 @@ MODELS = [
 CORE = {m[0] for m in MODELS if not m[0].startswith('trap_')
         and m[0] not in ('order', 'typed', 'req4', 'firm', 'extra_default',
                          'job')}
-GROUP_C02 = (CORE - {'perm'}) | {'order', 'firm', 'extra_default', 'job'}
+GROUP_C02 = (CORE - {'perm', 'versioned'}) | {'order', 'firm', 'extra_default',
+                                            'job'}
+GROUP_C08 = CORE | {'order', 'job', 'extra_default'}
 GROUP_C04 = {'trap_loose', 'trap_any', 'trap_dict', 'trap_typed', 'loose',
              'top_any', 'trap_sav'}
 MODEL_IDX = {m[0]: i for i, m in enumerate(MODELS)}
@@ -280,6 +289,10 @@ QUICK_SLICES = _slices(lambda mi, bi, n: bi == 0 and MODELS[mi][0] in CORE)
 ALL_SLICES_A = _slices(lambda mi, bi, n: MODELS[mi][0] in CORE, G4)
 QUICK_SLICES_A = _slices(lambda mi, bi, n: bi == 0 and MODELS[mi][0] in CORE,
                          G4)
+C08_SLICES = _slices(lambda mi, bi, n: MODELS[mi][0] in GROUP_C08, G4)
+C08_QUICK_SLICES = _slices(
+    lambda mi, bi, n: MODELS[mi][0] in GROUP_C08 and (
+        bi == 0 or MODELS[mi][0] == 'versioned'), G4)
 C02_SLICES = _slices(lambda mi, bi, n: MODELS[mi][0] in GROUP_C02, G4)
 C02_QUICK_SLICES = _slices(
     lambda mi, bi, n: MODELS[mi][0] in GROUP_C02 and bi == 0, G4)
